@@ -424,9 +424,25 @@ pub fn run_script(script: &Value) -> Value {
     // entities created through shared access and not yet merged by a maintain
     let n_raised = script["n_raised"].as_u64().unwrap_or(0) as usize;
     let raised: Vec<Entity> = (0..n_raised).map(|_| world.entities().create()).collect();
+    // `maintain`: the world is maintained before the join (unmerged entities are merged, deferred deletions
+    // applied - also those of entities created in the same frame); otherwise both stay pending
+    let maintain_first = script["maintain"].as_bool().unwrap_or(false);
+    let mut raised_gone: Vec<Entity> = vec![];
+    if maintain_first {
+        for (k, e) in raised.iter().enumerate() {
+            if k % 2 == 0 {
+                let _ = world.entities().delete(*e);
+                raised_gone.push(*e);
+            }
+        }
+        world.maintain();
+    }
     // the live entities as the API reported them (not taken from a join)
-    let mut live: Vec<Entity> = real.iter().copied().filter(|e| !dead.contains(&e.id())).collect();
-    live.extend(raised.iter().copied());
+    // (after a maintain the entities with a deferred deletion are gone)
+    let mut live: Vec<Entity> = real.iter().copied()
+        .filter(|e| !dead.contains(&e.id()) && !(maintain_first && doomed.contains(&e.id())))
+        .collect();
+    live.extend(raised.iter().copied().filter(|e| !raised_gone.contains(e)));
     live.sort_by_key(|e| e.id());
     let mut s = Setup { world, bitsets: vec![], bitsets2: vec![], csets: vec![], next_cid: 0 };
 
@@ -445,12 +461,31 @@ pub fn run_script(script: &Value) -> Value {
                 vals = fill_pos(&mut s, &shape, k, &ids, &ids_of(m, "churn"));
             }
             "cs" | "csm" | "csv" => {
+                // 1-3 adds per entity, interleaved (the entity is revisited after others have got their
+                // entries; runs of adds for one entity occur too): the value recorded is the one that
+                // arrived first, carrying the sum
                 let mut c = ChangeSet::<Amt>::new();
+                let mut first: Vec<(u32, u32, u32)> = vec![];        // (id, cid of the first add, sum)
+                let rounds = [1u32, 2, 3];
+                for r in 0..3u32 {
+                    for (pos, &id) in ids.iter().enumerate() {
+                        let n_adds = rounds[(id as usize + pos) % 3];
+                        let reps = if r < n_adds { if (id + r) % 4 == 0 { 2 } else { 1 } } else { 0 };
+                        for _ in 0..reps {
+                            s.next_cid += 1;
+                            let a = Amt { cid: s.next_cid, val: 1000 + s.next_cid };
+                            match first.iter_mut().find(|f| f.0 == id) {
+                                Some(f) => f.2 += a.val,
+                                None => first.push((id, a.cid, a.val)),
+                            }
+                            c.add(ent_for(&s.world, id), a);
+                        }
+                    }
+                }
                 for &id in &ids {
-                    s.next_cid += 1;
-                    let a = Amt { cid: s.next_cid, val: 1000 + s.next_cid };
-                    vals.push(json!([id, [a.cid, a.val]]));
-                    c.add(ent_for(&s.world, id), a);
+                    if let Some(f) = first.iter().find(|f| f.0 == id) {
+                        vals.push(json!([id, [f.1, f.2]]));
+                    }
                 }
                 cs = Some(c);
             }
